@@ -256,6 +256,9 @@ def do_op(fp, pd, d, opr, rec, part, fs=None):
     cm, nch = chunk_map(opr, part)
     df, offs = build_frame(pd, groups, cm, part, nch)
     if kind == "append":
+        if len(groups) % 2:
+            # the appended frame may list its columns in another order than the dataset (matched by name)
+            df = df[list(reversed(df.columns))]
         fp.write(d, df, file_scheme="hive", row_group_offsets=offs, partition_on=["p"] if part else [],
                  append=True, write_index=False, **kw)
     elif kind == "overwrite":
